@@ -861,6 +861,10 @@ func (tr tableReader) iterateAllChunks(ctx context.Context, cb func(chunk chunks
 		}
 
 		chunk := chunkRecs[chunkIndex]
+		if uint64(chunk.length) > uint64(len(buf)) {
+			// Records are not bounded by the initial buffer size.
+			buf = make([]byte, chunk.length)
+		}
 		_, err := io.ReadFull(bufReader, buf[:chunk.length])
 		chunkData := buf[:chunk.length]
 
